@@ -78,7 +78,10 @@ def cases(tier, seed):
                     "shape": [int(rng.integers(1, 7)), int(rng.integers(2, 7))], "spacing": [float(rng.uniform(0.1, 0.4)), float(rng.uniform(0.1, 0.4))],
                     "form": {"wl": ["dict", "array", "array_perm", "scalar"][i % 4] if i % 5 else "scalar", "pol": ["dict", "array_perm"][(i // 3) % 2], "n": ["dict", "array_perm", "scalar"][(i // 2) % 3],
                              "r": ["scalar", "dict"][(i // 5) % 2], "scaling": ["dict", "scalar"][(i // 7) % 2], "detector": ["grid", "image"][(i // 4) % 2]},
-                    "seed": [seed, "multi", i]})
+                    "seed": [seed, "multi", i],
+                    # what scatters: one sphere; a close pair one of whose spheres has the per-channel values (default theory: F124, explicit
+                    # multi-sphere solver: F125); a sphere given by layer thicknesses with per-channel dictionaries (F126)
+                    "scat_kind": "sphere" if lens else ["sphere", "pair_auto", "sphere", "pair_multisphere", "layered_dict", "sphere"][i % 6]})
     return out
 
 
@@ -198,6 +201,27 @@ def _run_multi(case):
         det = update_metadata(det, noise_sd=noise)
     s = Sphere(n=n_arg, r=r_arg, center=tuple(case["center"]))
     th = scat.build_theory(case["theory"])
+    sk = case.get("scat_kind", "sphere")
+    cen = tuple(case["center"])
+    mate = Sphere(n=case["nmed"] * 1.2, r=0.3, center=(cen[0] + 0.3 + max(rad.values()) + 0.15, cen[1], cen[2]))     # a close neighbour (gap 0.15)
+    def single(l):
+        return Sphere(n=nidx[l] if form["n"] != "scalar" else nidx[labs[0]], r=rad[l] if form["r"] == "dict" else rad[labs[0]], center=cen)
+    if sk in ("pair_auto", "pair_multisphere"):
+        from holopy.scattering import Spheres
+        from holopy.scattering.theory import Multisphere
+        if sk == "pair_multisphere" and form["n"] == "dict":
+            n_arg = as_array(nidx, perm)          # the labelled-array form of the same per-channel indices
+        s = Spheres([Sphere(n=n_arg, r=r_arg, center=cen), mate], warn=False)
+        th = "auto" if sk == "pair_auto" else Multisphere()
+        single_ = single
+        single = lambda l: Spheres([single_(l), mate], warn=False)
+    elif sk == "layered_dict":
+        from holopy.scattering.scatterer import LayeredSphere
+        inner = {l: 0.6 * (rad[l] if form["r"] == "dict" else rad[labs[0]]) for l in labs}
+        shell = {l: 0.4 * (rad[l] if form["r"] == "dict" else rad[labs[0]]) for l in labs}
+        n_in = {l: (nidx[l] if form["n"] != "scalar" else nidx[labs[0]]) for l in labs}
+        s = LayeredSphere(n={l: [n_in[l], case["nmed"] * 1.1] for l in labs}, t={l: [inner[l], shell[l]] for l in labs} if form["r"] == "dict" else [inner[labs[0]], shell[labs[0]]], center=cen)
+        single = lambda l: LayeredSphere(n=[n_in[l], case["nmed"] * 1.1], t=[inner[l], shell[l]], center=cen)
     h = calc_holo(det, s, case["nmed"], wl_arg, pol_arg, theory=th, scaling=sc_arg)
     f = calc_field(det, s, case["nmed"], wl_arg, pol_arg, theory=th)
     I = calc_intensity(det, s, case["nmed"], wl_arg, pol_arg, theory=th)
@@ -206,7 +230,7 @@ def _run_multi(case):
     flags["illumination_dim"] = bool("illumination" in h.dims and sorted(map(str, h.illumination.values)) == sorted(map(str, labs)))
     worst_h = worst_f = worst_i = 0.0
     for l in labs:
-        s1 = Sphere(n=nidx[l] if form["n"] != "scalar" else nidx[labs[0]], r=rad[l] if form["r"] == "dict" else rad[labs[0]], center=tuple(case["center"]))
+        s1 = single(l)
         sc1 = scaling[l] if form["scaling"] == "dict" else scaling[labs[0]]
         h1 = calc_holo(det1, s1, case["nmed"], wl[l], tuple(pol[l]), theory=th, scaling=sc1)
         f1 = calc_field(det1, s1, case["nmed"], wl[l], tuple(pol[l]), theory=th)
@@ -214,7 +238,7 @@ def _run_multi(case):
         worst_h = max(worst_h, relmax(h.sel(illumination=l).transpose(*h1.dims).values, h1.values))
         worst_f = max(worst_f, relmax(f.sel(illumination=l).transpose(*f1.dims).values, f1.values))
         worst_i = max(worst_i, relmax(I.sel(illumination=l).transpose(*i1.dims).values, i1.values))
-    t = case["theory"]["t"]
+    t = case["theory"]["t"] if sk in ("sphere", "layered_dict") else {"pair_auto": "auto", "pair_multisphere": "MultisphereSameCall"}[sk]
     resid["channel_holo@" + t] = fnum(worst_h)
     resid["channel_field@" + t] = fnum(worst_f)
     resid["channel_intensity@" + t] = fnum(worst_i)
@@ -238,6 +262,8 @@ def judge(case, obs):
                "channel_holo": 1e-12, "channel_field": 1e-12, "channel_intensity": 1e-12}[base]
         if t == "Multisphere":
             tol = max(tol, 3 * math.sqrt(obs.get("qeps1", 1e-5)))
+        if t in ("auto", "MultisphereSameCall"):
+            tol = 1e-9        # the same iterative solver on the same numbers, once inside a multi-channel call and once on its own
         if t == "Lens":
             tol = max(tol, 1e-9)
         if not v <= tol:
